@@ -170,6 +170,79 @@ struct Observer {
         }
     }
 
+    // one converted reverse iterator r (made from the forward position i) against the std::reverse_iterator semantics
+    template <class RIt>
+    static void conv_rev(const RIt& r, const std::vector<RIt>& canon, const RIt& rend, int i, const KVs& tv, const char* which, const char* what) {
+        if ((r == rend) != (i == 0) || (r != rend) == (i == 0)) {
+            sem_fail_nonterminal("iterator-conversion", vh::fmt("%s: %s made from position %d: == rend() is %d", which, what, i, (int)(r == rend)));
+            return;
+        }
+        if (!(r == canon[i])) {
+            // (not dereferenced: it may point before the first slot of a leaf)
+            sem_fail_nonterminal("iterator-conversion", vh::fmt("%s: %s made from position %d differs from the reverse iterator reached from rbegin() by %d increments "
+                                                                "(std: equal, both refer to element %d)", which, what, i, (int)tv.size() - i, i - 1));
+            return;
+        }
+        if (i == 0) return;
+        if (Sys::kv(*r) != tv[i - 1]) sem_fail_nonterminal("iterator-conversion", vh::fmt("%s: *%s made from position %d is not element %d", which, what, i, i - 1));
+        RIt r2 = r;
+        ++r2;
+        if (!(r2 == canon[i - 1]) || (r2 == rend) != (i == 1) || (i > 1 && Sys::kv(*r2) != tv[i - 2]))
+            sem_fail_nonterminal("iterator-conversion", vh::fmt("%s: ++ on %s made from position %d does not reach element %d", which, what, i, i - 2));
+    }
+    template <class FIt>
+    static void conv_fwd(const FIt& f, const std::vector<FIt>& canon, const FIt& end, int i, const KVs& tv, const char* which, const char* what) {
+        int n = (int)tv.size();
+        if (!(f == canon[i]) || (f == end) != (i == n)) {
+            // (not dereferenced: it may point past the last used slot of a leaf)
+            sem_fail_nonterminal("iterator-conversion", vh::fmt("%s: %s made from the reverse position with base %d differs from the iterator at position %d (std: base())", which, what, i, i));
+            return;
+        }
+        if (i < n && Sys::kv(*f) != tv[i]) sem_fail_nonterminal("iterator-conversion", vh::fmt("%s: *%s made from the reverse position with base %d is not element %d", which, what, i, i));
+    }
+    static void conversions(Tree& t, const Walk& w, const KVs& tv, const char* which) {
+        const Tree& ct = t;
+        int n = (int)tv.size();
+        std::vector<iterator> fit;
+        std::vector<const_iterator> cfit;
+        std::vector<reverse_iterator> rit(n + 1);         // indexed by base position: rit[n] == rbegin(), rit[0] == rend()
+        std::vector<const_reverse_iterator> crit(n + 1);
+        {
+            iterator it = t.begin();
+            const_iterator ci = ct.begin();
+            reverse_iterator ri = t.rbegin();
+            const_reverse_iterator cri = ct.rbegin();
+            for (int i = 0; i <= n; ++i) {
+                fit.push_back(it);
+                cfit.push_back(ci);
+                rit[n - i] = ri;
+                crit[n - i] = cri;
+                if (i < n) {
+                    ++it;
+                    ++ci;
+                    ++ri;
+                    ++cri;
+                }
+            }
+            if (!(it == t.end()) || !(ci == ct.end()) || !(ri == t.rend()) || !(cri == ct.rend())) return;  // reported by the scans
+        }
+        for (int i = 0; i <= n; ++i) {
+            const_iterator ci(fit[i]);
+            if (!(ci == cfit[i]) || Sys::ipos(w, ci) != i) sem_fail_nonterminal("iterator-conversion", vh::fmt("%s: const_iterator(iterator) moves position %d", which, i));
+            conv_rev<reverse_iterator>(reverse_iterator(fit[i]), rit, t.rend(), i, tv, which, "reverse_iterator(iterator)");
+            conv_rev<const_reverse_iterator>(const_reverse_iterator(fit[i]), crit, ct.rend(), i, tv, which, "const_reverse_iterator(iterator)");
+            conv_rev<const_reverse_iterator>(const_reverse_iterator(cfit[i]), crit, ct.rend(), i, tv, which, "const_reverse_iterator(const_iterator)");
+            conv_rev<const_reverse_iterator>(const_reverse_iterator(rit[i]), crit, ct.rend(), i, tv, which, "const_reverse_iterator(reverse_iterator)");
+            conv_fwd<iterator>(iterator(rit[i]), fit, t.end(), i, tv, which, "iterator(reverse_iterator)");
+            conv_fwd<const_iterator>(const_iterator(rit[i]), cfit, ct.end(), i, tv, which, "const_iterator(reverse_iterator)");
+            // (const_iterator(const_reverse_iterator) cannot be instantiated: const_reverse_iterator does not befriend const_iterator)
+            // round trip defined by std: reverse_iterator(it).base() == it
+            reverse_iterator rtmp(fit[i]);
+            iterator back(rtmp);
+            if (!(back == fit[i])) sem_fail_nonterminal("iterator-conversion", vh::fmt("%s: iterator(reverse_iterator(it)) != it at position %d", which, i));
+        }
+    }
+
     static bool temp_ok(Sys& sys, const Tree& c, const Model& mc, const char* what) {
         Walk wc = sys.walk(c);
         if (!sys.check_struct(c, wc, what)) return false;
@@ -195,20 +268,11 @@ struct Observer {
         roundtrips<reverse_iterator>(t.rbegin(), t.rend(), w, n, true, (tag + " reverse_iterator").c_str());
         roundtrips<const_reverse_iterator>(ct.rbegin(), ct.rend(), w, n, true, (tag + " const_reverse_iterator").c_str());
 
-        // conversions between the iterator kinds keep the position
+        // conversions between the iterator kinds (std convention, which tlx implements: rbegin() == reverse_iterator(end()),
+        // reverse_iterator::curr_slot is documented as "one slot past the current key/data slot referenced", and
+        // iterator(reverse_iterator) copies the position like base()): reverse_iterator(it) refers to the element before it.
         KVs tv = seq(ct, n);
-        {
-            int i = 0;
-            for (iterator it = t.begin();; ++it, ++i) {
-                const_iterator ci(it);
-                reverse_iterator ri(it);
-                const_reverse_iterator cri(ci);
-                iterator back(ri);
-                if (Sys::ipos(w, ci) != i || Sys::ipos(w, ri) != i || Sys::ipos(w, cri) != i || !(back == it)) sem_fail("iteration", vh::fmt("%s: iterator conversion moves position %d", which, i));
-                // (a reverse_iterator converted from an iterator is not dereferenced here: conversions are outside the property)
-                if (it == t.end() || i > n) break;
-            }
-        }
+        conversions(t, w, tv, which);
 
         int qlo = -1, qhi = sys.universe(m);
         if (sys.P.mode == 'A') {
